@@ -18,10 +18,15 @@ pub fn impl_enc(v: &Value) -> String {
 }
 
 pub fn impl_dec(b: &[u8]) -> String {
-    match catch_unwind(AssertUnwindSafe(|| serde_amqp::from_slice::<Value>(b))) {
+    let owned = b.to_vec();
+    // a decoder that does not return is a finding of its own (SPIN), not a hang of the harness
+    match crate::out::guarded(10, move || match catch_unwind(AssertUnwindSafe(|| serde_amqp::from_slice::<Value>(&owned))) {
         Ok(Ok(v)) => format!("OK {}", text(&v)),
         Ok(Err(_)) => "ERR".to_string(),
         Err(_) => "PANIC".to_string(),
+    }) {
+        Some(r) => r,
+        None => "SPIN".to_string(),
     }
 }
 
@@ -101,6 +106,20 @@ pub fn catalogue() -> Vec<Vec<u8>> {
         vec![0xa1, 0x03, 0xed, 0xa0, 0x80],
         vec![0xa1, 0x02, 0xc0, 0x80],
         vec![0x56, 0x02],
+        // empty arrays whose size field promises far more than the input holds (with and without an element constructor)
+        vec![0xf0, 0xff, 0xff, 0xff, 0xff, 0x00, 0x00, 0x00, 0x00],
+        vec![0xf0, 0xff, 0xff, 0xff, 0xff, 0x00, 0x00, 0x00, 0x00, 0xa3],
+        vec![0xf0, 0x7f, 0xff, 0xff, 0xff, 0x00, 0x00, 0x00, 0x00, 0x70],
+        vec![0xf0, 0x00, 0x00, 0x00, 0x05, 0x00, 0x00, 0x00, 0x00, 0xa3],
+        vec![0xf0, 0x00, 0x00, 0x00, 0x04, 0x00, 0x00, 0x00, 0x00],
+        vec![0xe0, 0xff, 0x00],
+        vec![0xe0, 0xff, 0x00, 0x50],
+        vec![0xe0, 0x02, 0x00, 0x50],
+        vec![0xe0, 0x01, 0x00],
+        // lists and maps of count 0 with a size field beyond the input
+        vec![0xd0, 0xff, 0xff, 0xff, 0xff, 0x00, 0x00, 0x00, 0x00],
+        vec![0xd1, 0xff, 0xff, 0xff, 0xff, 0x00, 0x00, 0x00, 0x00],
+        vec![0xc0, 0xff, 0x00],
     ];
     // nesting
     for n in [10usize, 100, 400] {
@@ -270,8 +289,18 @@ pub fn run(seed: u64, n: u64, thorough: bool, corpus: &[String], dir: &str) {
     for b in dec_inputs {
         let line = format!("dec {}", hex(&b));
         let base = crate::alloc::reset_peak();
+        let t0 = std::time::Instant::now();
         let res = impl_dec(&b);
+        let took = t0.elapsed();
         let peak = crate::alloc::peak_since(base);
+        // C04: work in proportion to the input - these inputs are at most a few kilobytes and decode in microseconds
+        if res != "SPIN" && took > std::time::Duration::from_secs(2) {
+            out.violation(
+                "c04-spin",
+                &format!("c04-spin: from_slice::<Value> took {} ms on the {} bytes {} (work out of proportion to the input)", took.as_millis(), b.len(), &hex(&b)[..hex(&b).len().min(80)]),
+                &line,
+            );
+        }
         // C04: memory in proportion to the input.  The bound is generous (the decoded value
         // tree is larger than its encoding by a constant factor); zero-width array elements
         // (null/true/false/uint0/ulong0/list0 constructors) are the known-finding class.
@@ -281,7 +310,10 @@ pub fn run(seed: u64, n: u64, thorough: bool, corpus: &[String], dir: &str) {
             out.violation(class, &format!("{}: decoding {} bytes ({}...) allocated {} bytes", class, b.len(), &hex(&b)[..hex(&b).len().min(40)], peak), &line);
         }
         out.add("dec_peak_alloc_total", peak as u64);
-        if res == "PANIC" {
+        if res == "SPIN" {
+            out.violation("c04-spin", &format!("c04-spin: from_slice::<Value> had not returned after 10 s on the {} bytes {} (work out of proportion to the input, or a loop that consumes nothing)", b.len(), hex(&b)), &line);
+            out.count("dec_spin");
+        } else if res == "PANIC" {
             out.violation("c04-panic", &format!("c04-panic: from_slice::<Value> panicked on {}", hex(&b)), &line);
             out.count("dec_panic");
         } else if let Some(t) = res.strip_prefix("OK ") {
